@@ -575,6 +575,9 @@ func main() {
 				if ph == "after" && ri.knames[K] == "exit_group" {
 					continue
 				}
+				if thorough && c.sf.kind == "gen_large" && rt.mode != 0o644 && ph == "after" {
+					continue // the > 1 MB file: both phases for 0644, "before" only for the other modes
+				}
 				if !thorough {
 					switch {
 					case c.idx <= 1:
